@@ -16,20 +16,20 @@ import (
 type variant struct {
 	family string
 	// knobs
-	order        int  // 0 canonical (by field number), 1 reversed, 2 shuffled
-	packFlip     bool // repeated scalars: the opposite of the declared packing
-	splitPacked  bool // packed lists split into several runs, mixed with unpacked elements
-	dupSingular  bool // singular scalar preceded by another occurrence with a different value (last wins)
-	splitMsg     bool // singular message field split over two occurrences (merge)
-	splitEmpty   bool // with splitMsg: cut at the very start or the very end, so that one of the occurrences is empty
-	oneofMulti   bool // another member of the oneof before the real one (last wins)
-	oneofABA     bool // with oneofMulti, message members: an earlier occurrence of the SAME member, then another member, then the real one
+	order         int  // 0 canonical (by field number), 1 reversed, 2 shuffled
+	packFlip      bool // repeated scalars: the opposite of the declared packing
+	splitPacked   bool // packed lists split into several runs, mixed with unpacked elements
+	dupSingular   bool // singular scalar preceded by another occurrence with a different value (last wins)
+	splitMsg      bool // singular message field split over two occurrences (merge)
+	splitEmpty    bool // with splitMsg: cut at the very start or the very end, so that one of the occurrences is empty
+	oneofMulti    bool // another member of the oneof before the real one (last wins)
+	oneofABA      bool // with oneofMulti, message members: an earlier occurrence of the SAME member, then another member, then the real one
 	oneofMsgLoser bool // with oneofMulti: the member that loses is a message member (written empty) where the oneof has one
 	oneofABAFull  bool // with oneofABA: the earlier occurrence A' is a different, self-sufficient value of the member type (every required field set)
-	mapShape     int  // 0 normal, 1 value-then-key, 2 omit zero key, 3 omit zero value, 4 duplicate key (first with other value), 5 omit both, 6 message value split over two occurrences inside the entry
-	explicitZero bool // implicit-presence fields holding zero are written explicitly
-	unknown      bool // unknown fields interleaved at every level
-	padded       bool // unknown fields use over-long (non-minimal but valid) varints for key, length prefix and varint value
+	mapShape      int  // 0 normal, 1 value-then-key, 2 omit zero key, 3 omit zero value, 4 duplicate key (first with other value), 5 omit both, 6 message value split over two occurrences inside the entry
+	explicitZero  bool // implicit-presence fields holding zero are written explicitly
+	unknown       bool // unknown fields interleaved at every level
+	padded        bool // unknown fields use over-long (non-minimal but valid) varints for key, length prefix and varint value
 }
 
 var variantFamilies = []variant{
@@ -333,10 +333,10 @@ func (e *venc) message(m protoreflect.Message, depth int) []byte {
 						// final value is A alone - nothing of A' may be merged into it
 						extra := refwire.AppendVarint(refwire.AppendKey(nil, 536870001, refwire.WTVarint), 77)
 						firstBody := append(append([]byte(nil), full...), extra...)
-					if e.v.oneofABAFull {
-						firstBody = append(e.message(minimalComplete(fd.Message(), 0).ProtoReflect(), depth+1), extra...)
-					}
-					first := refwire.AppendLen(refwire.AppendKey(nil, int(fd.Number()), refwire.WTLen), firstBody)
+						if e.v.oneofABAFull {
+							firstBody = append(e.message(minimalComplete(fd.Message(), 0).ProtoReflect(), depth+1), extra...)
+						}
+						first := refwire.AppendLen(refwire.AppendKey(nil, int(fd.Number()), refwire.WTLen), firstBody)
 						chunks = append(chunks, append(append(first, c...), real...))
 					} else {
 						chunks = append(chunks, append(c, real...))
